@@ -96,6 +96,11 @@ RULE = ("generic samplers over four interaction families (two-site exchange-type
         "measure (bin c04m): timesteps / timesteps_sample / timesteps_measure with t in 0..25, frequencies None/1/2/3/4/7/0, on samplers with "
         "non-zero offsets and small <n>, against a manual timestep/get_n loop on a clone with the same RNG (oracle: energy == -(sum n/#measured)/beta + offset "
         "to 1e-12, samples/cadence, same final configuration); the driver recomputes count and energy with C17's measureLoop/measureEnergy. "
+        "cutoff: scenarios of 25-40 operations on generic samplers (families 0-5, beta in {1/2,1,2,4}) mixing timesteps with "
+        "increase_cutoff_to(c) for c below (0, 1, cutoff-1, below n) / equal / above the current cutoff and set_cutoff upwards, plus fixed "
+        "scenarios (20 steps at beta 4, increase_cutoff_to(1), increase_cutoff_to(nvars), 10 steps; a floor driver calling before every step); "
+        "oracle after every operation: get_cutoff() == max(previous, c), container length >= cutoff after a call, configuration unchanged by a "
+        "call, cutoff never decreases, no panic, consistency after steps; the driver recomputes cutoff and container length per operation. "
         "nonergodic: the two fixed F20 witness samplers ([g,g,g,g] + field on one spin; the same on two spins with an exchange term), "
         "5 fixed seeds x 500 timesteps, count of off-diagonal single-site operators (seed-independent input; known finding). "
         "hbtable: generic samplers with heat bath on, 3-5 variables, a 3-variable term (diag / diag_off / full) whose unique maximum sits at "
@@ -125,6 +130,8 @@ def main(ck):
         ck.correspond("nonergodic-witness", "drv_c04", ck.harness("c04", ["nonergodic"]))
         # the default measuring methods (timesteps / timesteps_sample / timesteps_measure) on generic samplers with offsets
         ck.correspond("measured-energy", "drv_c04", ck.harness("c04m", ["measure"]))
+        # manual cutoff calls between steps (increase_cutoff_to below / at / above the current cutoff, set_cutoff upwards)
+        ck.correspond("cutoff-calls", "drv_c04", ck.harness("c04", ["cutoff"]))
         # heat-bath bond-weight table of generic samplers with 3-/4-variable terms (oracle on the real code only)
         ck.correspond("heatbath-table-maxima", "drv_c04", ck.harness("c04", ["hbtable"]))
         # the diagonal-update kernels C04 composes (same harness modes as C08 / C02)
